@@ -1,0 +1,191 @@
+//! verification-only toy instantiation of curve_impl!
+use super::super::{Bls12, Fq12, Fr};
+use ff::{BitIterator, Field, LegendreSymbol, PrimeField, SqrtField};
+use std::fmt;
+use {CurveAffine, CurveProjective, EncodedPoint, Engine, GroupDecodingError};
+
+pub static mut TOY_B: u16 = 0;
+
+#[derive(Copy, Clone, PartialEq, Eq, Debug, PartialOrd, Ord)]
+pub struct ToyFq<const P: u16>(pub u16);
+
+impl<const P: u16> ::zeroize::Zeroize for ToyFq<P> {
+    fn zeroize(&mut self) {
+        self.0 = 0;
+    }
+}
+impl<const P: u16> fmt::Display for ToyFq<P> {
+    fn fmt(&self, _f: &mut fmt::Formatter) -> fmt::Result {
+        Ok(())
+    }
+}
+impl<const P: u16> Field for ToyFq<P> {
+    fn random<R: rand_core::RngCore + ?Sized>(rng: &mut R) -> Self {
+        ToyFq((rng.next_u32() % (P as u32)) as u16)
+    }
+    fn zero() -> Self {
+        ToyFq(0)
+    }
+    fn one() -> Self {
+        ToyFq(1)
+    }
+    fn is_zero(&self) -> bool {
+        self.0 == 0
+    }
+    fn square(&mut self) {
+        self.0 = (self.0 * self.0) % P;
+    }
+    fn double(&mut self) {
+        self.0 = (self.0 + self.0) % P;
+    }
+    fn negate(&mut self) {
+        self.0 = (P - self.0) % P;
+    }
+    fn add_assign(&mut self, o: &Self) {
+        self.0 = (self.0 + o.0) % P;
+    }
+    fn sub_assign(&mut self, o: &Self) {
+        self.0 = (self.0 + P - o.0) % P;
+    }
+    fn mul_assign(&mut self, o: &Self) {
+        self.0 = (self.0 * o.0) % P;
+    }
+    fn inverse(&self) -> Option<Self> {
+        let mut i = 1;
+        while i < P {
+            if (self.0 * i) % P == 1 {
+                return Some(ToyFq(i));
+            }
+            i += 1;
+        }
+        None
+    }
+    fn frobenius_map(&mut self, _: usize) {}
+}
+impl<const P: u16> SqrtField for ToyFq<P> {
+    fn legendre(&self) -> LegendreSymbol {
+        if self.0 == 0 {
+            LegendreSymbol::Zero
+        } else if self.sqrt().is_some() {
+            LegendreSymbol::QuadraticResidue
+        } else {
+            LegendreSymbol::QuadraticNonResidue
+        }
+    }
+    fn sqrt(&self) -> Option<Self> {
+        let mut i = 0;
+        while i < P {
+            if (i * i) % P == self.0 {
+                return Some(ToyFq(i));
+            }
+            i += 1;
+        }
+        None
+    }
+}
+
+macro_rules! toy_curve {
+    ($m:ident, $p:expr) => {
+        pub mod $m {
+            use super::*;
+            pub type Fp = ToyFq<$p>;
+            curve_impl!("T", T, TAffine, TPrepared, Fp, Fr, TUncompressed, TCompressed, TAffine);
+
+            #[derive(Clone, Debug)]
+            pub struct TPrepared(pub TAffine);
+            impl TPrepared {
+                pub fn from_affine(p: TAffine) -> Self {
+                    TPrepared(p)
+                }
+            }
+            #[derive(Copy, Clone, Debug)]
+            pub struct TUncompressed([u8; 4]);
+            #[derive(Copy, Clone, Debug)]
+            pub struct TCompressed([u8; 2]);
+            macro_rules! enc {
+                ($t:ident, $n:expr) => {
+                    impl AsRef<[u8]> for $t {
+                        fn as_ref(&self) -> &[u8] {
+                            &self.0
+                        }
+                    }
+                    impl AsMut<[u8]> for $t {
+                        fn as_mut(&mut self) -> &mut [u8] {
+                            &mut self.0
+                        }
+                    }
+                    impl EncodedPoint for $t {
+                        type Affine = TAffine;
+                        fn empty() -> Self {
+                            $t([0; $n])
+                        }
+                        fn size() -> usize {
+                            $n
+                        }
+                        fn into_affine(&self) -> Result<TAffine, GroupDecodingError> {
+                            Err(GroupDecodingError::NotOnCurve)
+                        }
+                        fn into_affine_unchecked(&self) -> Result<TAffine, GroupDecodingError> {
+                            Err(GroupDecodingError::NotOnCurve)
+                        }
+                        fn from_affine(_: TAffine) -> Self {
+                            Self::empty()
+                        }
+                    }
+                };
+            }
+            enc!(TUncompressed, 4);
+            enc!(TCompressed, 2);
+
+            impl TAffine {
+                pub fn new(x: u16, y: u16, infinity: bool) -> Self {
+                    TAffine { x: ToyFq(x), y: ToyFq(y), infinity }
+                }
+                pub fn xy(&self) -> (u16, u16, bool) {
+                    (self.x.0, self.y.0, self.infinity)
+                }
+                fn scale_by_cofactor(&self) -> T {
+                    self.into_projective()
+                }
+                fn get_generator() -> Self {
+                    TAffine::zero()
+                }
+                fn get_coeff_b() -> Fp {
+                    ToyFq(unsafe { TOY_B })
+                }
+                fn perform_pairing(&self, _other: &TAffine) -> Fq12 {
+                    Fq12::one()
+                }
+                pub fn v_is_on_curve(&self) -> bool {
+                    self.is_on_curve()
+                }
+                pub fn v_get_point_from_x(x: u16, greatest: bool) -> Option<TAffine> {
+                    Self::get_point_from_x(ToyFq(x), greatest)
+                }
+                pub fn v_mul_bits(&self, k: [u64; 4]) -> T {
+                    self.mul_bits(BitIterator::new(k))
+                }
+            }
+            impl T {
+                pub fn new(x: u16, y: u16, z: u16) -> Self {
+                    T { x: ToyFq(x), y: ToyFq(y), z: ToyFq(z) }
+                }
+                pub fn xyz(&self) -> (u16, u16, u16) {
+                    (self.x.0, self.y.0, self.z.0)
+                }
+                fn empirical_recommended_wnaf_for_scalar(
+                    _s: <Fr as PrimeField>::Repr,
+                ) -> usize {
+                    4
+                }
+                fn empirical_recommended_wnaf_for_num_scalars(_n: usize) -> usize {
+                    4
+                }
+            }
+        }
+    };
+}
+
+toy_curve!(p13, 13);
+toy_curve!(p31, 31);
+toy_curve!(p61, 61);
